@@ -15,7 +15,7 @@ def lookup_budget(n, k):
 
 
 def run_repair(rows, k, start, text, check=None, has_indel=True, heap_size=1e9, budget=None, line_budget=None,
-               layout=None, np_start=False):
+               layout=None, np_start=False, np_args=False):
     """repair_dna on a counting proxy.  Returns (result | Raised | "BUDGET" | "STEPS", look-ups, lines)."""
     dsw = import_dsw()
     acc, counter = counted(gens.accessor_of({"k": k, "rows": rows}, layout),
@@ -43,6 +43,12 @@ def run_repair(rows, k, start, text, check=None, has_indel=True, heap_size=1e9, 
         if np_start:
             import numpy
             start = numpy.int64(start)
+        if np_args:  # the strand, the check and the observed length as numpy scalars (str / int subclasses)
+            import numpy
+            text = numpy.str_(text)
+            k = numpy.int64(k)
+            if check is not None:
+                check = numpy.str_(check)
         result = lib_call(dsw.repair_dna, dna_sequence=text, accessor=acc, start_index=start, observed_length=k,
                           vt_check=check, has_indel=has_indel, heap_size=heap_size)
     except LookupBudgetExceeded:
